@@ -15,7 +15,7 @@ TRUSTED = [
     "z3 5.1 QF_UFBV",
     "fixedint model (validated differentially against fixedint 0.2.0 on every run)",
     "refs/riscv_ref.py (hand-written from the RISC-V unprivileged spec and the help-page ecall table)",
-    "lemma L-FP: int(a / b) on |a|,|b| < 2^31 is truncating division (DESIGN.md section 3)",
+    "lemma L-FP: int(a / b) on |a|,|b| < 2^31 is truncating division (DESIGN.md section 3); decided by z3 (QF_BVFP) at 8-bit (quick) / 12-bit (thorough) operand width in job lemma-L-FP, written argument at full width",
 ]
 ASSUMPTIONS = [
     "pc is a multiple of 4 in [0, 2^14) (C04 establishes this for assembled programs)",
@@ -146,13 +146,36 @@ def h_step(e, m, dcache=None):
     return "ok"
 
 
-HARNESSES = {"step": h_step}
+def h_lfp(e, bits):
+    """Lemma L-FP at reduced width: for all signed `bits`-bit a, b (b != 0) the repository's
+    int(a / b) - binary64 division, then truncation - equals truncating integer division."""
+    import z3
+
+    a, b = z3.BitVecs("a b", bits)
+    rne, rtz = z3.RNE(), z3.RTZ()
+    fa = z3.fpSignedToFP(rne, a, z3.Float64())
+    fb = z3.fpSignedToFP(rne, b, z3.Float64())
+    q = z3.fpDiv(rne, fa, fb)
+    back = z3.fpToSBV(rtz, q, z3.BitVecSort(bits + 1))
+    want = z3.SignExt(1, a) / z3.SignExt(1, b)  # bvsdiv at bits+1: no overflow
+    s_ = z3.Solver()
+    s_.set("timeout", 600000)
+    s_.add(b != 0, back != want)
+    r = s_.check()
+    e.observe("result", str(r))
+    e.claim("L-FP-%d-bit" % bits, r == z3.unsat, {"result": str(r), "model": str(s_.model()) if r == z3.sat else None})
+    e.claim("canary:lfp", r == z3.sat)
+
+
+HARNESSES = {"step": h_step, "lfp": h_lfp}
 
 
 def jobs(tier, seed):
     out = []
     for m in MNEMONICS:
         out.append({"label": m, "harness": "step", "args": {"m": m}, "cost": 5 if m in ("ecall", "div", "rem") else 1, "validate_every": 1})
+    # lemma L-FP decided by z3 in QF_BVFP at reduced operand width (8 bit quick, 12 bit thorough)
+    out.append({"label": "lemma-L-FP", "harness": "lfp", "args": {"bits": 8 if tier == "quick" else 12}, "cost": 100, "validate": False})
     return out
 
 
